@@ -533,9 +533,10 @@ def generate(seed: int, tier: str = "quick") -> Dict[str, Any]:
     rf = kit.rng(seed, "faults")
     cfg = {
         "n_ops": rc.choice([2, 3, 4, 5, 6, 8, 10, 12]),
-        "n_programs": rc.choice([1, 2, 3, 5]),
+        "n_programs": rc.choice([1, 2, 3, 5, 6]),
         "fault_class": rc.choice(["none", "faults", "faults"]),
-        "ctx_share": rc.choice([0.5, 0.7, 0.9]),
+        "ctx_share": rc.choice([0.2, 0.5, 0.7, 0.9]),
+        "pure_focus": rc.sample(PURE_KINDS, rc.choice([1, 1, 2, 3, len(PURE_KINDS)])),
         "modes": rc.choice([MODES, MODES, ["runner"], ["with_C", "with_I"], ["runner", "direct"],
                             ["runner", "nested_runner"]]),
     }
@@ -546,7 +547,9 @@ def generate(seed: int, tier: str = "quick") -> Dict[str, Any]:
     cfg["fault_kinds"] = fault_kinds
     programs = []
     for _ in range(cfg["n_programs"]):
-        kind = rw.choice(CTX_KINDS) if rw.random() < cfg["ctx_share"] else rw.choice(PURE_KINDS)
+        # the pure helpers of one run come from a small subset, so that the same helper is used
+        # several times in one history with different inputs (anything it remembers would show)
+        kind = rw.choice(CTX_KINDS) if rw.random() < cfg["ctx_share"] else rw.choice(cfg["pure_focus"])
         programs.append({"kind": kind, "params": gen_params(rw, kind)})
     if rc.random() < 0.25:
         # a program of the application that binds its own function mapping: the c7nlib table
